@@ -38,6 +38,7 @@ class C07(Prop):
     id = 'C07'
     k2_mask = {('node', 'queues'), ('node', 'bq'), ('node', 'lenbq'), ('node', 'pop'), ('ind', 'blocked'), ('ind', 'dest'), ('ind', 'server'), ('rec', 'blocked'), ('rec', 'dest')}      # the slice of the engine state / records this property reads (DESIGN 7, table of slices)
     k2_frames = 40
+    k2_invs2 = {'blk2'}         # the stage-2 T2 invariants (Inv/AllRun2.invs2_b) this property answers for on real snapshots
     k2_invs = {'blk', 'who', 'cap'}          # the T2 invariants (Inv/AllRun.invs_b) this property answers for on real snapshots
     num = 7
     regions = {'quick': [('block', 260), ('core', 60), ('routers', 50), ('renege', 50), ('sched_block', 80), ('deadlock', 40)]}
